@@ -505,7 +505,7 @@ class ParsersWorld:
                         f2.pop("silent")
                     else:
                         f2["silent"] = False
-                    it2 = {"ddl": it["ddl"], "flags": f2, "src": "same"}
+                    it2 = {"ddl": it["ddl"] if ro.random() < 0.5 else workload.same_length_variant(ro, it["ddl"]), "flags": f2, "src": "same"}
                 elif c2 < 0.6 and workload.tables_of(it["ddl"]):
                     d2, _shape = workload.gen_followup(ro, workload.tables_of(it["ddl"]))
                     it2 = {"ddl": d2, "flags": dict(flags), "src": "followup"}
@@ -583,8 +583,11 @@ class ParsersWorld:
             def body(task):
                 # a task owns one parser object, optionally followed by further objects built and run in the
                 # same thread ("then"): object index oi, run index j (-1 = the constructor raised)
+                p = None
                 for oi, ospec in enumerate([spec] + list(spec.get("then") or [])):
                     if oi:
+                        p = None            # the thread drops its previous object before it builds the next one
+                        gc.collect()
                         S.yield_point("between")
                     try:
                         p = self.DDLParser(ospec["ddl"], **ospec["flags"])
